@@ -11,45 +11,31 @@ import (
 // existing struct / oneof / multimap types, arrays, and NEW struct / oneof / multimap types
 // (reachable only through appended fields: they insert entries in the middle of the
 // depth-first list of field counts). Root names and every existing field stay as they are.
-func evolve(r *rng.R, a *gSchema, pkg string) (*gSchema, map[string]int) {
+func evolve(r *rng.R, a *gSchema, pkg string, wild bool) (*gSchema, map[string]int) {
 	for {
 		b, feat := evolveOnce(r, a, pkg)
 		// fields appended to A's definitions are new, but the definitions are frozen as a whole
 		// here: a violation inside one (e.g. an A dict struct that B puts on a cycle) => redraw
-		if sanitizeNew(b, a, feat) {
+		if sanitizeNew(b, a, feat, wild) {
 			return b, feat
 		}
 	}
 }
 
 // sanitizeNew applies sanitize to B, allowing changes only to what B added.
-func sanitizeNew(b, a *gSchema, feat map[string]int) bool {
-	// array-only dictionaries on appended fields of A definitions: drop the modifier there first
-	plainA := map[string]bool{}
-	for _, d := range b.Defs {
-		for _, f := range d.Fields {
-			if f.Ty.Dict != "" && !f.Ty.Array {
-				plainA[f.Ty.Dict] = true
+func sanitizeNew(b, a *gSchema, feat map[string]int, wild bool) bool {
+	if !wild {
+		// array element dictionaries on fields appended to A's definitions: dropped here (the
+		// definitions themselves are frozen for sanitize)
+		for _, d := range b.Defs {
+			da := a.def(d.Name)
+			if da == nil {
+				continue
 			}
-		}
-		if d.Kind == "multimap" {
-			if d.Key.Dict != "" && !d.Key.Array {
-				plainA[d.Key.Dict] = true
-			}
-			if d.Val.Dict != "" && !d.Val.Array {
-				plainA[d.Val.Dict] = true
-			}
-		}
-	}
-	for _, d := range b.Defs {
-		da := a.def(d.Name)
-		if da == nil {
-			continue
-		}
-		for i := len(da.Fields); i < len(d.Fields); i++ {
-			t := &d.Fields[i].Ty
-			if t.Array && t.Dict != "" && !plainA[t.Dict] {
-				t.Dict = ""
+			for i := len(da.Fields); i < len(d.Fields); i++ {
+				if t := &d.Fields[i].Ty; t.Array && t.Dict != "" {
+					t.Dict = ""
+				}
 			}
 		}
 	}
@@ -57,7 +43,7 @@ func sanitizeNew(b, a *gSchema, feat map[string]int) bool {
 	for _, d := range a.Defs {
 		frozen[d.Name] = true
 	}
-	return sanitize(b, frozen, feat)
+	return sanitize(b, frozen, feat, wild)
 }
 
 func evolveOnce(r *rng.R, a *gSchema, pkg string) (*gSchema, map[string]int) {
